@@ -7,13 +7,15 @@ PROP = {
         "InSampledTraceFilter::matches, Traceparent::{current, push, new}, set_active_traceparent, get_active_traceparent, ActiveTraceparent::is_parent_of}",
         "emit::span::{SpanGuard::new, SpanCtxt::{current, new_child}}, emit::Frame::{current, call}",
     ],
-    "bounds": "span trees of depth <= 1 below the root (thorough 2), fan-out <= 2, sampler verdict symbolic per new trace; incoming header absent / "
-              "valid with sampled or unsampled flag; two harness threads; counter rng",
+    "bounds": "quick: ONE step from an arbitrary current traceparent (none, or any valid ids with either flag): the sampling filter on one span "
+              "event; one TraceparentCtxt frame (pushed or disabled) entered and left; two harness threads. thorough: span trees of depth <= 1 "
+              "(2) through SpanGuard with a symbolic sampler verdict and an optional incoming header",
     "outside": "the real ThreadLocalCtxt as inner context (does not fit CBMC): the array-backed harness context stands in; real threads and async "
                "interleavings; invalid / mismatched incoming headers beyond the two cases; Tracestate propagation",
     "stubs": ["thread_local! ACTIVE_TRACEPARENT -> per-'thread' slots indexed by a harness-controlled thread id (stubs/tls_traceparent.toml)",
-              "inner Ctxt = env::ArrCtxt", "rng = counter", "sampler = closure with call counter and symbolic verdict"],
+              "inner Ctxt = env::ArrCtxt", "rng = counter", "sampler = closure with call counter and symbolic verdict",
+              "TraceId/SpanId::try_from_hex, Value::parse, <u128/u64 as FromValue>::from_value -> assert-unreachable (all ids/kinds in these harnesses are typed)"],
     "assumptions": ["the random source does not repeat and does not return zero", "frames are exited in stack order"],
     "level_text": "Bounded model checking of the sampling logic of the trace-context runtime over a harness inner context; PARTIAL (thread-local inner context, scheduling outside).",
-    "timeout": {"quick": 800, "thorough": 3600},
+    "timeout": {"quick": 900, "thorough": 5400},
 }
